@@ -12,6 +12,7 @@ open Jp Jp.Spec
 -- fromStr_eq_spec fromStr_ok_iff fromStr_no_panic display_fromStr fromStr_display parseNat_decimal
 -- leading_zeros_truthful invalid_character_truthful invalid_integer_truthful
 -- forLen_exact forLenIncl_exact forLenUnchecked_exact toIndex_eq isNext_iff char_index_is_byte_index
+-- fromStr_err_admitted admits_unique_without_leading_zero admits_with_leading_zero
 
 /-! ### obligations -/
 
@@ -226,6 +227,87 @@ theorem isNext_iff (t : Bytes) : Token.isNext t = true ↔ t = [45] := by
       exact spec_ok_next t h1
     · simp at h
   · rintro rfl; decide
+
+/-! ### the statement as a relation
+
+C16 does not say *which* reason is given when several are truthful (`"0x"`: leading zeros, or an invalid character
+at 1; `"0999…9"` beyond `usize::MAX`: leading zeros, or overflow). `Admits s e` is the statement's own relation;
+the code-mirroring model picks one admissible reason (`fromStr_err_admitted`), a string that is not a
+multi-character string starting with `0` admits exactly one (`admits_unique_without_leading_zero`), and with a
+leading zero the further admissible reasons are exactly invalid-character / overflow
+(`admits_with_leading_zero`). The correspondence check compares the crate's reason with the model's only up to
+this relation (tools/proptable.py `_index_reasons`), and checks membership on the crate's side (`law_truth`). -/
+
+/-- the rejection reasons C16's statement admits for `s` -/
+def Admits (s : Bytes) : ParseIndexError → Prop
+  | .leadingZeros => 1 < s.length ∧ s.head? = some 48
+  | .invalidCharacter src o => src = s ∧ position (fun b => !isDigit b) s = some o
+  | .invalidIntegerEmpty => s = []
+  | .invalidIntegerOverflow => s ≠ [] ∧ (∀ b ∈ s, isDigit b = true) ∧ usizeMax < parseNat s
+
+/-- whatever reason the model gives is admitted by the statement -/
+theorem fromStr_err_admitted (s : Bytes) (e : ParseIndexError) (h : Index.fromStr s = .err e) : Admits s e := by
+  rw [fromStr_eq_spec] at h
+  unfold indexSpec at h
+  split at h
+  · simp at h
+  · split at h
+    · rename_i h2; simp at h; subst h; exact ⟨h2.1, h2.2⟩
+    · split at h
+      · rename_i o hp; simp at h; subst h; exact ⟨rfl, hp⟩
+      · rename_i hp
+        split at h
+        · rename_i h3; simp at h; subst h; exact h3
+        · rename_i h3
+          split at h
+          · rename_i h4; simp at h; subst h
+            exact ⟨h3, all_digit_of_position s hp, h4⟩
+          · simp at h
+
+/-- without a leading zero (in a multi-character string) the admitted reason is unique: the comparison with the
+    model is exact there -/
+theorem admits_unique_without_leading_zero (s : Bytes) (e e' : ParseIndexError)
+    (hz : ¬ (1 < s.length ∧ s.head? = some 48)) (h : Admits s e) (h' : Admits s e') : e = e' := by
+  have ic_vs_digits : ∀ o, position (fun b => !isDigit b) s = some o → (∀ b ∈ s, isDigit b = true) → False := by
+    intro o h1 h2; rw [position_of_all_digit s h2] at h1; simp at h1
+  have ic_vs_empty : ∀ o, position (fun b => !isDigit b) s = some o → s = [] → False := by
+    intro o h1 h2; subst h2; simp [position] at h1
+  cases e with
+  | leadingZeros => exact absurd h hz
+  | invalidCharacter src o =>
+    obtain ⟨hs, h1⟩ := h
+    cases e' with
+    | leadingZeros => exact absurd h' hz
+    | invalidCharacter src' o' =>
+      obtain ⟨hs', h2⟩ := h'
+      rw [h1] at h2; simp at h2; subst h2; subst hs; subst hs'; rfl
+    | invalidIntegerEmpty => exact (ic_vs_empty o h1 h').elim
+    | invalidIntegerOverflow => exact (ic_vs_digits o h1 h'.2.1).elim
+  | invalidIntegerEmpty =>
+    cases e' with
+    | leadingZeros => exact absurd h' hz
+    | invalidCharacter src' o' => exact (ic_vs_empty o' h'.2 h).elim
+    | invalidIntegerEmpty => rfl
+    | invalidIntegerOverflow => exact absurd h h'.1
+  | invalidIntegerOverflow =>
+    cases e' with
+    | leadingZeros => exact absurd h' hz
+    | invalidCharacter src' o' => exact (ic_vs_digits o' h'.2 h.2.1).elim
+    | invalidIntegerEmpty => exact absurd h' h.1
+    | invalidIntegerOverflow => rfl
+
+/-- with a leading zero, any other admitted reason is an invalid character or an overflow — never `empty` -/
+theorem admits_with_leading_zero (s : Bytes) (e : ParseIndexError)
+    (hz : 1 < s.length ∧ s.head? = some 48) (h : Admits s e) :
+    e = .leadingZeros ∨ (∃ o, e = .invalidCharacter s o) ∨ e = .invalidIntegerOverflow := by
+  cases e with
+  | leadingZeros => exact Or.inl rfl
+  | invalidCharacter src o => simp only [Admits] at h; obtain ⟨rfl, _⟩ := h; exact Or.inr (Or.inl ⟨o, rfl⟩)
+  | invalidIntegerEmpty => simp only [Admits] at h; subst h; simp at hz
+  | invalidIntegerOverflow => exact Or.inr (Or.inr rfl)
+
+example : Admits [48, 120] .leadingZeros ∧ Admits [48, 120] (.invalidCharacter [48, 120] 1) := by
+  refine ⟨⟨by decide, by decide⟩, rfl, by decide⟩
 
 example : Index.fromStr [48, 49] = .err .leadingZeros := by decide
 example : Index.fromStr [43, 49] = .err (.invalidCharacter [43, 49] 0) := by decide
